@@ -9,7 +9,9 @@ Tie (what no model can replace):
  (b) panic search over the whole standard library: well-typed calls of every overload the root scope exports (signatures
      through the hook `verif_hooks/typing.rs`), arguments from a typed pool of edge values, plus value-level mutations of
      test_scripts/*.xr and of the book's code blocks, each top-level binding and zero-argument function run under limits;
- (c) shape check: the dump of every value so produced has the shape of the static type the compiler reports for it.
+ (c) shape check: the dump of every value so produced has the shape of the static type the compiler reports for it;
+ (d) function values of different types (arity, optional parameters, parameter and result types, named and lambda, core and
+     library) in every position where the compiler computes a common type, then called with each arity.
 A corpus of minimised past failures (corpus/C01/*.case) runs first."""
 import glob
 from .common import *
@@ -506,6 +508,12 @@ def run_sliced(reqs, per_req_timeout=5.0, width=96):
     out = []
     for i in range(0, len(reqs), width):
         out.extend(run_harness(reqs[i:i + width], per_req_timeout=per_req_timeout))
+    # a request that timed out on a busy machine is asked once more, alone and with a long deadline, before it counts as a hang
+    again = [i for i, r in enumerate(out) if "hang" in r][:32]
+    if again:
+        with ThreadPoolExecutor(max_workers=8) as ex:
+            for i, r in zip(again, ex.map(lambda i: run_harness([reqs[i]], per_req_timeout=25.0)[0], again)):
+                out[i] = r
     return out
 
 
@@ -1205,6 +1213,138 @@ def norm_type(s):
     return s
 
 
+# ================================================================================================ function-valued common types
+
+# (name, params [(pname, type, default)], result type, body) — the named functions of the shape sweep
+FV_FUNCS = [
+    ('k0', [], 'int', ('i', 7)),
+    ('inc', [('x', 'int', None)], 'int', ('c', 'add', [('v', 'x'), ('i', 1)])),
+    ('add2', [('x', 'int', None), ('y', 'int', None)], 'int', ('c', 'add', [('v', 'x'), ('v', 'y')])),
+    ('add3', [('x', 'int', None), ('y', 'int', None), ('z', 'int', None)], 'int', ('c', 'add', [('v', 'x'), ('c', 'add', [('v', 'y'), ('v', 'z')])])),
+    ('opt1', [('x', 'int', None), ('y', 'int', ('i', 10))], 'int', ('c', 'sub', [('v', 'x'), ('v', 'y')])),
+    ('opt0', [('x', 'int', ('i', 3))], 'int', ('c', 'mul', [('v', 'x'), ('i', 2)])),
+    ('incs', [('x', 'int', None), ('s', 'str', None)], 'int', ('c', 'add', [('v', 'x'), ('i', 2)])),
+    ('isneg', [('x', 'int', None)], 'bool', ('c', 'lt', [('v', 'x'), ('i', 0)])),
+    ('ofb', [('b', 'bool', None)], 'int', ('c', 'if', [('v', 'b'), ('i', 1), ('i', 0)])),
+]
+FV_LAMBDAS = [
+    ('lam', [], [], ('i', 1), 'int'),
+    ('lam', [('u', 'int', None)], [], ('v', 'u'), 'int'),
+    ('lam', [('u', 'int', None), ('w', 'int', None)], [], ('c', 'mul', [('v', 'u'), ('v', 'w')]), 'int'),
+    ('lam', [('u', 'int', None), ('t', 'str', None)], [], ('v', 'u'), 'int'),
+]
+FV_LIB = [("abs{int}", ['int']), ("sign{int}", ['int']), ("gcd{int, int}", ['int', 'int']), ("max{int, int}", ['int', 'int']),
+          ("pow{int, int}", ['int', 'int']), ("to_str{int}", ['int']), ("len{str}", ['str']), ("neg{int}", ['int']),
+          ("floor_root{int, int}", ['int', 'int']), ("count{}", [])]
+FV_ARG = {'int': [('i', 5), ('i', 6), ('i', 4)], 'str': [('s', 'a')] * 3, 'bool': [('b', True)] * 3}
+
+
+def funcval_part(chk, quick):
+    """Function values of DIFFERENT types put where the compiler computes a common type (both branches of `if`, the
+    elements of a sequence literal, two arguments bound to one generic parameter) or keeps them apart (a tuple), then the
+    selected one called with each of the two arities. Either the compiler rejects, or the run ends in a value / error
+    value / violation. Positions expressible in the core fragment are also compared with the Lean checker
+    (function types must agree exactly)."""
+    rng = chk.rng
+    pr = cg.Printer(None, sugar=False)
+    decls = [('fn', n, ps, ret, [], body) for (n, ps, ret, body) in FV_FUNCS]
+    prelude_src = pr.program(decls) + "fn pick<T>(c: bool, a: T, b: T)->T{if(c, a, b)}\n"
+    cands = [(('v', n), [p[1] for p in ps], sum(1 for p in ps if p[2] is None)) for (n, ps, ret, body) in FV_FUNCS]
+    cands += [(l, [p[1] for p in l[1]], len(l[1])) for l in FV_LAMBDAS]
+    reqs, meta, model_lines, model_idx = [], [], [], []
+
+    def arglists(f, g):
+        out = []
+        for (_, ptys, nreq) in (f, g):
+            for k in sorted({nreq, len(ptys)}):
+                a = [FV_ARG[t][i] for i, t in enumerate(ptys[:k])]
+                if a not in out:
+                    out.append(a)
+        return out
+
+    pairs = [(f, g) for f in cands for g in cands if f is not g]
+    if quick:
+        pairs = [p for p in pairs if rng.random() < 0.45]
+    for f, g in pairs:
+        for args in arglists(f, g):
+            for sel in (0, 1):
+                cond = ('b', sel == 0)
+                shapes = [
+                    ("if", ('ce', ('c', 'if', [cond, f[0], g[0]]), args), True),
+                    ("tuple", ('ce', ('item', ('tup', [f[0], g[0]]), sel), args), True),
+                    ("array", None, False),
+                    ("generic", None, False),
+                ]
+                for shape, e, in_fragment in shapes:
+                    if e is not None:
+                        src = prelude_src + "let r = " + pr.expr(e) + ";\n"
+                    elif shape == "array":
+                        src = prelude_src + f"let fs = [{pr.expr(f[0])}, {pr.expr(g[0])}];\nlet r = fs[{sel}](" + ", ".join(pr.expr(a) for a in args) + ");\n"
+                    else:
+                        src = prelude_src + f"let r = pick({pr.expr(cond)}, {pr.expr(f[0])}, {pr.expr(g[0])})(" + ", ".join(pr.expr(a) for a in args) + ");\n"
+                    reqs.append({"op": "typing", "f": "run", "src": src, "get": ["r"], "types": ["r"], "limits": LIB_LIMITS[0]})
+                    meta.append((shape, src))
+                    if in_fragment:
+                        model_idx.append(len(reqs) - 1)
+                        model_lines.append("typing check " + tsx_program(decls + [('let', 'r', e, None)]))
+            # the sequence literal alone is in the fragment (through `len`)
+        e = ('c', 'len', [('arr', [f[0], g[0]], None)])
+        src = prelude_src + "let r = " + pr.expr(e) + ";\n"
+        reqs.append({"op": "typing", "f": "run", "src": src, "get": ["r"], "types": ["r"], "limits": LIB_LIMITS[0]})
+        meta.append(("array-len", src))
+        model_idx.append(len(reqs) - 1)
+        model_lines.append("typing check " + tsx_program(decls + [('let', 'r', e, None)]))
+    # library functions of different arities as values
+    for (f, fa) in FV_LIB:
+        for (g, ga) in FV_LIB:
+            if f == g or (quick and rng.random() < 0.5):
+                continue
+            for k in sorted({len(fa), len(ga)}):
+                tys = fa[:k] if len(fa) >= k else ga[:k]
+                args = ", ".join(pr.expr(FV_ARG[t][i]) for i, t in enumerate(tys))
+                for sel in (0, 1):
+                    for shape, src in (("lib-array", f"let fs = [{f}, {g}];\nlet r = fs[{sel}]({args});\n"),
+                                       ("lib-if", f"let r = if({'true' if sel == 0 else 'false'}, {f}, {g})({args});\n"),
+                                       ("lib-generic", f"fn pick<T>(c: bool, a: T, b: T)->T{{if(c, a, b)}}\nlet r = pick({'true' if sel == 0 else 'false'}, {f}, {g})({args});\n")):
+                        reqs.append({"op": "typing", "f": "run", "src": src, "get": ["r"], "types": ["r"], "limits": LIB_LIMITS[0]})
+                        meta.append((shape, src))
+    resps = run_sliced(reqs)
+    mres = dict(zip(model_idx, run_model(model_lines))) if model_lines else {}
+    for i, ((shape, src), q, r) in enumerate(zip(meta, reqs, resps)):
+        chk.evaluations += 1
+        f = fail_of(r)
+        if f:
+            chk.count(f"funcval:{shape}:{f[0]}")
+            report_failure(chk, "funcval", f"function values of different types in one {shape} position, then called",
+                           {"outcome": f[0], "detail": f[1], "src": src, "limits": q["limits"]}, {"get": ["r"]})
+            continue
+        racc = r.get("compile") == "ok"
+        chk.count(f"funcval:{shape}:{'accepted' if racc else 'rejected'}")
+        if racc:
+            chk.nontrivial.add(src)
+        if i in mres:
+            macc = mres[i].startswith("ok")
+            if mres[i] == "bad-op":
+                chk.violation("tie:typing:bad-op", "the Lean checker could not read a function-value program", {"model_request": model_lines[model_idx.index(i)]}, no_input=True)
+            elif macc != racc:
+                which = "compiler-accepts-checker-rejects" if racc else "compiler-rejects-checker-accepts"
+                chk.violation(f"funcval:{which}:{shape}",
+                              f"function values of different types in one {shape} position: the real compiler and the Lean checker (function types must agree "
+                              f"exactly) disagree ({which}): compiler={json.dumps(r.get('compile'))[:200]} program={src[len(prelude_src):]!r}",
+                              {"src": src, "get": ["r"], "limits": q["limits"], "checker": mres[i], "compiler": r.get("compile")})
+        if racc and r.get("inst") == "ok":
+            dump, tt = r["vals"].get("r"), r.get("types", {}).get("r")
+            if dump and tt and not dump.startswith("!") and not tt.startswith("!"):
+                try:
+                    why = shape_ok(parse_dump(dump), parse_type(tt))
+                except ValueError:
+                    why = None
+                chk.count("shape:checked")
+                if why:
+                    chk.violation(f"shape:funcval:{shape}", f"the result of calling a selected function value does not have the shape of its static type {tt}: {why}; program {src[len(prelude_src):]!r}",
+                                  {"src": src, "get": ["r"], "limits": q["limits"], "static_type": tt, "dump": dump})
+
+
 # ================================================================================================ corpus
 
 def run_corpus(chk):
@@ -1258,6 +1398,7 @@ def run(chk):
     core_part(chk, 60 if quick else 600, 240 if quick else 3000)
     t2 = time.time()
     library_search(chk, 2 if quick else 8)
+    funcval_part(chk, quick)
     t3 = time.time()
     script_search(chk, 500 if quick else 6000)
     chk.coverage["seconds"] = {"corpus": round(t1 - t0, 1), "core": round(t2 - t1, 1), "library": round(t3 - t2, 1), "scripts": round(time.time() - t3, 1)}
